@@ -102,8 +102,7 @@ func (c *specCtx) tr(x *SExpr) Value {
 				return uV(Select(Select(e.memU(), b.Ref), Add(b.Off, i)))
 			}
 		}
-		arr, off := c.seqArgs(x.Args[0])
-		return intV(Select(arr, Add(off, i)))
+		return intV(Select(c.seqArgs(x.Args[0]), i))
 	case "un":
 		switch x.Name {
 		case "!":
@@ -325,24 +324,33 @@ func (c *specCtx) field(base Value, name string, x *SExpr) Value {
 	return e.loadField(id, *lf)
 }
 
-func (c *specCtx) seqArgs(x *SExpr) (arr, off *Term) {
+// viewOf is the offset-free content array of a slice/string: cell j of the view is element j.
+func viewOf(arr, off *Term) *Term {
+	if off.Op == "lit" && off.Name == "0" {
+		return arr
+	}
+	return App("shift", SArr, arr, off)
+}
+
+// seqArgs translates a byte-sequence argument to its view array.
+func (c *specCtx) seqArgs(x *SExpr) *Term {
 	if x.Kind == "old" {
-		a, o := c.seqArgs(x.Args[0])
+		a := c.seqArgs(x.Args[0])
 		if c.oldMap == nil {
 			c.errorf("old() used where no old state exists")
-			return a, o
+			return a
 		}
-		return a.Subst(c.oldMap), o.Subst(c.oldMap)
+		return a.Subst(c.oldMap)
 	}
 	v := c.tr(x)
 	switch v.K {
 	case VSlice:
-		return Select(c.e.mem(), v.Ref), v.Off
+		return viewOf(Select(c.e.mem(), v.Ref), v.Off)
 	case VStr:
-		return v.Arr, v.Off
+		return viewOf(v.Arr, v.Off)
 	}
 	c.errorf("spec: %s is not a byte sequence", x.String())
-	return App("emptyArr", SArr), IntLit(0)
+	return App("emptyArr", SArr)
 }
 
 func (c *specCtx) call(x *SExpr) Value {
@@ -433,8 +441,7 @@ func (c *specCtx) call(x *SExpr) Value {
 			ai++
 			switch pk {
 			case "seq":
-				arr, off := c.seqArgs(a)
-				args = append(args, arr, off)
+				args = append(args, c.seqArgs(a))
 			case "int":
 				args = append(args, c.intTerm(a))
 			case "bool":
@@ -575,6 +582,9 @@ func (e *Env) ghostVar(name, kind string) Value {
 	case "bool":
 		e.declare(n, SBool)
 		return boolV(Var(n, SBool))
+	case "seq":
+		e.declare(n, SArr)
+		return Value{K: VStr, Arr: Var(n, SArr), Off: IntLit(0), Len: IntLit(0)}
 	}
 	e.declare(n, SInt)
 	return intV(Var(n, SInt))
